@@ -8,6 +8,10 @@ import (
 	"bytes"
 	"crypto/sha256"
 	"encoding/hex"
+	"encoding/json"
+	"math/big"
+	"sort"
+	"strconv"
 	"fmt"
 	"reflect"
 	"strings"
@@ -40,6 +44,9 @@ func main() {
 	digests()
 	merkles()
 	receipts()
+	chainIDs()
+	hardforks()
+	genesisStore()
 }
 
 // ---------------------------------------------------------------------------------------------
@@ -1154,4 +1161,431 @@ func receiptsTokens(d *types.Receipts) string {
 		sb.WriteString(receiptTokens(r))
 	}
 	return sb.String()
+}
+
+// ---------------------------------------------------------------------------------------------
+// 4. chain id codec
+
+func randName(slash bool) string {
+	n := rng.Intn(12)
+	b := make([]byte, n)
+	const cs = "abcdefghijklmnopqrstuvwxyz.-_0123456789"
+	for i := range b {
+		switch {
+		case slash && rng.Chance(1, 6):
+			b[i] = '/'
+		case rng.Chance(1, 25):
+			b[i] = byte(rng.Intn(256))
+			if b[i] == '/' && !slash {
+				b[i] = '.'
+			}
+		default:
+			b[i] = cs[rng.Intn(len(cs))]
+		}
+	}
+	return string(b)
+}
+
+func randI32() int32 {
+	switch rng.Intn(5) {
+	case 0:
+		return []int32{0, 1, 2, 3, 4, 5, -1, 1<<31 - 1, -1 << 31, 255, 256}[rng.Intn(11)]
+	case 1:
+		return int32(rng.Intn(6))
+	default:
+		return int32(rng.Next())
+	}
+}
+
+func randChainID() (*types.ChainID, bool) {
+	slash := rng.Chance(1, 8)
+	c := &types.ChainID{Version: randI32(), PublicNet: rng.Bool(), MainNet: rng.Bool(), Magic: randName(slash), Consensus: randName(slash)}
+	if rng.Chance(1, 3) {
+		c.Magic, c.Consensus = []string{"dev.chain", "aergo.io", "testnet.aergo.io"}[rng.Intn(3)], []string{"dpos", "raft", "sbp"}[rng.Intn(3)]
+	}
+	has := strings.Contains(c.Magic, "/") || strings.Contains(c.Consensus, "/")
+	return c, !has
+}
+
+func cidTokens(c *types.ChainID) string {
+	return fmt.Sprintf("%d %v %v %s %s", c.Version, c.PublicNet, c.MainNet, hx([]byte(c.Magic)), hx([]byte(c.Consensus)))
+}
+
+func cidRead(data []byte) (string, *types.ChainID) {
+	c := types.NewChainID()
+	if err := c.Read(exact(data)); err != nil {
+		return "err", nil
+	}
+	return cidTokens(c), c
+}
+
+func chainIDs() {
+	for i := 0; i < run.Pick(2500, 50000); i++ {
+		c, noSlash := randChainID()
+		b, err := c.Bytes()
+		if err != nil {
+			run.Op("cidb "+cidTokens(c), "err", false)
+			continue
+		}
+		run.Op("cidb "+cidTokens(c), hx(b), true)
+		out, back := cidRead(b)
+		run.Op("cidr "+hx(b), out, back != nil)
+		run.Count(fmt.Sprintf("chainid-no-slash=%v-read-ok=%v", noSlash, back != nil))
+		// oracle: the chain id read back is the one written. An id whose magic/consensus contains "/" is allowed to be
+		// *rejected* by Read (chaindb.go GetGenesisInfo then keeps the gob copy of the id) but never to come back different.
+		rep := map[string]interface{}{"chain_id": cidTokens(c), "bytes": hx(b)}
+		if back == nil && noSlash {
+			run.Fail("chain id bytes cannot be read back", rep)
+		}
+		if back != nil && !back.Equals(c) {
+			rep["read_back"] = cidTokens(back)
+			run.Fail("chain id read back differs from what was written", rep)
+		}
+		// decode: mutated / truncated / random inputs
+		var d []byte
+		switch rng.Intn(4) {
+		case 0:
+			d = b[:rng.Intn(len(b))]
+		case 1:
+			d = flip(b)
+		case 2:
+			d = rng.Bytes(rng.Intn(16))
+		default:
+			d = append(append([]byte(nil), b[:6]...), []byte(randName(true)+"/"+randName(rng.Bool()))...)
+		}
+		out, back = cidRead(d)
+		run.Op("cidr "+hx(d), out, back != nil)
+		run.Op("cidv "+hx(d), fmt.Sprint(types.DecodeChainIdVersion(exact(d))), len(d) >= 4)
+
+		// MakeChainId / ChainIdEqualWithoutVersion
+		v := randI32()
+		src := exact(b)
+		if rng.Chance(1, 6) {
+			src = exact(d)
+		}
+		mk, panicked := vh.Guard(func() string { return hx(types.MakeChainId(src, v)) })
+		if panicked {
+			mk = "panic"
+		}
+		run.Op(fmt.Sprintf("mkcid %s %d", hx(src), v), mk, !panicked)
+		if !panicked {
+			nb := types.MakeChainId(exact(src), v)
+			rep := map[string]interface{}{"chain_id_bytes": hx(src), "version": v, "result": hx(nb)}
+			if types.DecodeChainIdVersion(nb) != v {
+				run.Fail("MakeChainId result does not carry the requested version", rep)
+			}
+			if !types.ChainIdEqualWithoutVersion(nb, src) {
+				run.Fail("MakeChainId changed something other than the version prefix", rep)
+			}
+			if noSlash && bytes.Equal(src, b) {
+				c2 := types.NewChainID()
+				want := *c
+				want.Version = v
+				if err := c2.Read(nb); err != nil || !c2.Equals(&want) {
+					run.Fail("chain id with replaced version does not read back as the same id with that version", rep)
+				}
+			}
+		}
+		o := exact(d)
+		if rng.Bool() {
+			c3 := *c
+			c3.Version = randI32()
+			if rng.Chance(1, 3) {
+				c3.PublicNet = !c3.PublicNet
+			}
+			o, _ = c3.Bytes()
+		}
+		eq := types.ChainIdEqualWithoutVersion(exact(b), o)
+		run.Op("cideq "+hx(b)+" "+hx(o), fmt.Sprint(eq), true)
+		run.Count(fmt.Sprintf("cideq=%v", eq))
+	}
+}
+
+// ---------------------------------------------------------------------------------------------
+// 5. hardfork version function and compatibility check
+
+func hfFields() []string { return exportedFields(reflect.TypeOf(config.HardforkConfig{})) }
+
+func mkCfg(hs []uint64) *config.HardforkConfig {
+	c := &config.HardforkConfig{}
+	v := reflect.ValueOf(c).Elem()
+	for i, f := range hfFields() {
+		v.FieldByName(f).SetUint(hs[i])
+	}
+	return c
+}
+
+func natsStr(hs []uint64) string {
+	var sb strings.Builder
+	fmt.Fprintf(&sb, "%d", len(hs))
+	for _, h := range hs {
+		fmt.Fprintf(&sb, " %d", h)
+	}
+	return sb.String()
+}
+
+// dbTokens: "<bad keys> <m> (k v)*" for keys V<k>; keys whose suffix is not a number are only counted
+func dbTokens(db config.HardforkDbConfig) string {
+	bad := 0
+	type kv struct{ k, v uint64 }
+	var kvs []kv
+	for k, v := range db {
+		n, err := strconv.ParseUint(k[1:], 10, 64)
+		if err != nil {
+			bad++
+			continue
+		}
+		kvs = append(kvs, kv{n, v})
+	}
+	sort.Slice(kvs, func(i, j int) bool { return kvs[i].k < kvs[j].k })
+	var sb strings.Builder
+	fmt.Fprintf(&sb, "%d %d", bad, len(kvs))
+	for _, e := range kvs {
+		fmt.Fprintf(&sb, " %d %d", e.k, e.v)
+	}
+	return sb.String()
+}
+
+func compatClass(err error) string {
+	if err == nil {
+		return "ok"
+	}
+	if ver, ok := config.VerifC19ForkErrVersion(err); ok {
+		for _, f := range hfFields() {
+			if f == ver {
+				return "fork:" + ver
+			}
+		}
+		return "older"
+	}
+	if _, ok := err.(*strconv.NumError); ok {
+		return "older"
+	}
+	return "invalid"
+}
+
+func randHeights(n int, sorted bool) []uint64 {
+	hs := make([]uint64, n)
+	small := rng.Chance(2, 3)
+	for i := range hs {
+		if small {
+			hs[i] = uint64(rng.Intn(12))
+		} else {
+			hs[i] = rng.Next() >> uint(20+rng.Intn(44))
+		}
+	}
+	if sorted {
+		sort.Slice(hs, func(i, j int) bool { return hs[i] < hs[j] })
+	}
+	return hs
+}
+
+func heightGrid(lists ...[]uint64) []uint64 {
+	set := map[uint64]bool{0: true, 1: true}
+	for _, l := range lists {
+		for _, x := range l {
+			set[x] = true
+			set[x+1] = true
+			if x > 0 {
+				set[x-1] = true
+			}
+			set[x+7] = true
+		}
+	}
+	var out []uint64
+	for h := range set {
+		out = append(out, h)
+	}
+	sort.Slice(out, func(i, j int) bool { return out[i] < out[j] })
+	return out
+}
+
+func hardforks() {
+	n := len(hfFields())
+	for i := 0; i < run.Pick(700, 12000); i++ {
+		hs := randHeights(n, rng.Chance(3, 4))
+		c := mkCfg(hs)
+		// version table on the grid of all heights next to a fork height; oracle: monotone in the height
+		prev := int32(-1 << 31)
+		for _, h := range heightGrid(hs) {
+			v := c.Version(h)
+			run.Op(fmt.Sprintf("ver %d %s", h, natsStr(hs)), fmt.Sprint(v), v != 0)
+			if v < prev {
+				run.Fail("hardfork version decreases with the height", map[string]interface{}{"config": hs, "height": h, "version": v, "version_below": prev})
+			}
+			prev = v
+			if (v >= 2) != c.IsV2Fork(h) && n >= 1 && sort.SliceIsSorted(hs, func(a, b int) bool { return hs[a] < hs[b] }) {
+				run.Fail("IsV2Fork disagrees with Version >= 2 on a valid configuration", map[string]interface{}{"config": hs, "height": h})
+			}
+		}
+		run.Count("version-table")
+
+		// the database copy: what WriteHardfork stores (JSON), then altered
+		data, err := json.Marshal(c)
+		if err != nil {
+			panic(err)
+		}
+		var db config.HardforkDbConfig
+		if err := json.Unmarshal(data, &db); err != nil {
+			panic(err)
+		}
+		fields := hfFields()
+		kind := rng.Intn(8)
+		switch kind {
+		case 0: // unchanged: a restart with the same configuration
+		case 1, 2:
+			f := fields[rng.Intn(n)]
+			if rng.Bool() {
+				db[f] = uint64(rng.Intn(12))
+			} else {
+				db[f] = db[f] + uint64(rng.Intn(3)) - 1
+			}
+		case 3:
+			delete(db, fields[rng.Intn(n)]) // written by an older release
+		case 4:
+			db[fmt.Sprintf("V%d", n+2+rng.Intn(3))] = uint64(rng.Intn(12)) // written by a newer release
+		case 5:
+			db["Vx"] = 1
+		case 6:
+			for _, f := range fields {
+				if rng.Bool() {
+					db[f] = uint64(rng.Intn(12))
+				}
+			}
+		case 7:
+			db = config.HardforkDbConfig{}
+		}
+		best := heightGrid(hs)[rng.Intn(len(heightGrid(hs)))]
+		if rng.Chance(1, 4) {
+			best = uint64(rng.Intn(14))
+		}
+		dbTok := dbTokens(db)
+		if kind == 3 && rng.Bool() {
+			// chaindb.go Hardfork(): keys missing in the database copy are filled from the node's configuration first
+			cp := config.HardforkDbConfig{}
+			for k, v := range db {
+				cp[k] = v
+			}
+			fixed := cp.FixDbConfig(*c)
+			var parts []string
+			var keys []int
+			byK := map[int]uint64{}
+			for k, v := range fixed {
+				kn, _ := strconv.Atoi(k[1:])
+				keys = append(keys, kn)
+				byK[kn] = v
+			}
+			sort.Ints(keys)
+			for _, k := range keys {
+				parts = append(parts, fmt.Sprintf("V%d=%d", k, byK[k]))
+			}
+			run.Op(fmt.Sprintf("fix %s %s", natsStr(hs), strings.SplitN(dbTok, " ", 2)[1]), strings.Join(parts, " "), true)
+			db = fixed
+			dbTok = dbTokens(db)
+		}
+		cerr := c.CheckCompatibility(db, best)
+		cls := compatClass(cerr)
+		run.Op(fmt.Sprintf("compat %d %s %s", best, natsStr(hs), dbTok), cls, cls == "ok")
+		run.Count("compat-" + strings.SplitN(cls, ":", 2)[0])
+		// oracle: stable across restarts - if the node starts (check passed), every height up to the best block has the
+		// version it had under the configuration recorded in the database
+		if cerr == nil {
+			dbHs := make([]uint64, n)
+			for k, f := range fields {
+				dbHs[k] = db[f]
+			}
+			dc := mkCfg(dbHs)
+			for _, h := range heightGrid(hs, dbHs) {
+				if h > best {
+					break
+				}
+				run.Eval(fmt.Sprintf("stable %v %v %d", hs, dbHs, h), true)
+				if c.Version(h) != dc.Version(h) {
+					run.Fail("hardfork version of an existing block changed across a restart that passed CheckCompatibility",
+						map[string]interface{}{"node_config": hs, "db_config": dbTok, "best": best, "height": h, "node_version": c.Version(h), "db_version": dc.Version(h)})
+				}
+			}
+		}
+		if kind == 0 && cerr != nil && cls != "invalid" {
+			run.Fail("restart with the unchanged configuration is refused", map[string]interface{}{"config": hs, "best": best, "class": cls})
+		}
+	}
+	// small scope, exhaustive: every configuration over heights 0..3 (4 fields: 256 configs) x every height 0..4
+	if n <= 4 {
+		total := 1
+		for k := 0; k < n; k++ {
+			total *= 4
+		}
+		for code := 0; code < total; code++ {
+			hs := make([]uint64, n)
+			for k, cc := 0, code; k < n; k, cc = k+1, cc/4 {
+				hs[k] = uint64(cc % 4)
+			}
+			c := mkCfg(hs)
+			prev := int32(-1 << 31)
+			for h := uint64(0); h <= 4; h++ {
+				v := c.Version(h)
+				run.Op(fmt.Sprintf("ver %d %s", h, natsStr(hs)), fmt.Sprint(v), v != 0)
+				if v < prev {
+					run.Fail("hardfork version decreases with the height", map[string]interface{}{"config": hs, "height": h})
+				}
+				prev = v
+			}
+		}
+		run.Count("version-small-scope-exhaustive")
+	}
+}
+
+// ---------------------------------------------------------------------------------------------
+// 6. genesis: the gob storage path of chain/chaindb.go (addGenesisBlock / GetGenesisInfo) - real code only, no model
+
+func genesisStore() {
+	for i := 0; i < run.Pick(300, 5000); i++ {
+		c, _ := randChainID()
+		g := &types.Genesis{ID: *c, Timestamp: int64(randU64())}
+		for k := rng.Intn(5); k > 0; k-- {
+			g.BPs = append(g.BPs, randName(true))
+		}
+		for k := rng.Intn(3); k > 0; k-- {
+			g.EnterpriseBPs = append(g.EnterpriseBPs, types.EnterpriseBP{Name: randName(true), Address: randName(true), PeerID: randName(false)})
+		}
+		if rng.Bool() {
+			g.Balance = map[string]string{randName(false): "1000", randName(false): "5"}
+		}
+		total := new(big.Int).SetBytes(rng.Bytes(rng.Intn(14)))
+		g.AddBalance(total)
+		stored := g.Bytes()                       // tx.Set(dbkey.Genesis(), genesis.Bytes())
+		storedBal := g.TotalBalance().Bytes()     // tx.Set(dbkey.GenesisBalance(), totalBalance.Bytes())
+		storedCid := g.Block().GetHeader().ChainID // the genesis block carries ID.Bytes()
+		back := types.GetGenesisFromBytes(stored)
+		run.Eval(fmt.Sprintf("genesis %s %d %v %v", cidTokens(c), g.Timestamp, g.BPs, g.EnterpriseBPs), true)
+		run.Count("genesis-gob-roundtrip")
+		rep := map[string]interface{}{"chain_id": cidTokens(c), "timestamp": g.Timestamp, "bps": g.BPs, "enterprise_bps": g.EnterpriseBPs}
+		if back == nil {
+			run.Fail("stored genesis cannot be read back", rep)
+			continue
+		}
+		// GetGenesisInfo: the id is overwritten by the genesis block's chain id when that parses
+		if len(storedCid) > 0 {
+			cid := types.NewChainID()
+			if err := cid.Read(storedCid); err == nil {
+				back.ID = *cid
+			}
+		}
+		if len(storedBal) != 0 {
+			back.SetTotalBalance(storedBal)
+		}
+		switch {
+		case !back.ID.Equals(&g.ID):
+			run.Fail("genesis chain id read back differs from what was written", rep)
+		case back.Timestamp != g.Timestamp:
+			run.Fail("genesis timestamp read back differs", rep)
+		case !reflect.DeepEqual(append([]string{}, back.BPs...), append([]string{}, g.BPs...)):
+			run.Fail("genesis block producers read back differ", rep)
+		case !reflect.DeepEqual(append([]types.EnterpriseBP{}, back.EnterpriseBPs...), append([]types.EnterpriseBP{}, g.EnterpriseBPs...)):
+			run.Fail("genesis enterprise block producers read back differ", rep)
+		case total.Sign() != 0 && (back.TotalBalance() == nil || back.TotalBalance().Cmp(total) != 0):
+			run.Fail("genesis total balance read back differs", rep)
+		}
+	}
 }
